@@ -131,11 +131,29 @@ func (ArchLinux) Package(info *nfpm.Info, w io.Writer) error {
 	if err != nil {
 		return err
 	}
-	defer zw.Close()
 
 	tw := tar.NewWriter(zw)
-	defer tw.Close()
 
+	if err := createPackage(info, tw); err != nil {
+		// release the writers; the error that matters is the first one
+		_ = tw.Close()
+		_ = zw.Close()
+		return err
+	}
+
+	// most of the package reaches w only now: these errors must not be lost
+	if err := tw.Close(); err != nil {
+		_ = zw.Close()
+		return fmt.Errorf("close tar: %w", err)
+	}
+	if err := zw.Close(); err != nil {
+		return fmt.Errorf("close zstd: %w", err)
+	}
+
+	return nil
+}
+
+func createPackage(info *nfpm.Info, tw *tar.Writer) error {
 	entries, totalSize, err := createFilesInTar(info, tw)
 	if err != nil {
 		return fmt.Errorf("create files in tar: %w", err)
